@@ -75,7 +75,7 @@ def group_join_(
                     result = (value, add_ref(subject, rcd))
                 except Exception as e:
                     log.error(f"*** Exception: {e}")
-                    for left_value in left_map.values():
+                    for left_value in list(left_map.values()):
                         left_value.on_error(e)
 
                     observer.on_error(e)
@@ -105,14 +105,14 @@ def group_join_(
                 try:
                     duration = left_duration_mapper(value)
                 except Exception as e:
-                    for left_value in left_map.values():
+                    for left_value in list(left_map.values()):
                         left_value.on_error(e)
 
                     observer.on_error(e)
                     return
 
                 def on_error(error: Exception) -> Any:
-                    for left_value in left_map.values():
+                    for left_value in list(left_map.values()):
                         left_value.on_error(error)
 
                     observer.on_error(error)
@@ -122,7 +122,7 @@ def group_join_(
                 )
 
             def on_error_left(error: Exception) -> None:
-                for left_value in left_map.values():
+                for left_value in list(left_map.values()):
                     left_value.on_error(error)
 
                 observer.on_error(error)
@@ -152,7 +152,7 @@ def group_join_(
                 try:
                     duration = right_duration_mapper(value)
                 except Exception as e:
-                    for left_value in left_map.values():
+                    for left_value in list(left_map.values()):
                         left_value.on_error(e)
 
                     observer.on_error(e)
@@ -160,7 +160,7 @@ def group_join_(
 
                 def on_error(error: Exception):
                     with left.lock:
-                        for left_value in left_map.values():
+                        for left_value in list(left_map.values()):
                             left_value.on_error(error)
 
                         observer.on_error(error)
@@ -170,11 +170,11 @@ def group_join_(
                 )
 
                 with left.lock:
-                    for left_value in left_map.values():
+                    for left_value in list(left_map.values()):
                         left_value.on_next(value)
 
             def on_error_right(error: Exception) -> None:
-                for left_value in left_map.values():
+                for left_value in list(left_map.values()):
                     left_value.on_error(error)
 
                 observer.on_error(error)
